@@ -90,6 +90,21 @@ def _structure(
     # The loads are kept apart: a function may both call the producer of a path and load this path.
     load_deps: OrderedDict[Tuple[PyHash, PyHash], Edge] = OrderedDict()
 
+    def reaches(start: PyHash, target: PyHash) -> bool:
+        # True if the target can be reached from the start along the edges recorded so far.
+        todo: List[PyHash] = [start]
+        seen: Set[PyHash] = set()
+        while todo:
+            k = todo.pop()
+            if k == target:
+                return True
+            if k in seen:
+                continue
+            seen.add(k)
+            todo.extend(k2 for (k1, k2) in deps if k1 == k)
+            todo.extend(k2 for (k1, k2) in load_deps if k1 == k)
+        return False
+
     # Returns the list of head nodes:
     # All the nodes that can be evaluated independently inside a function.
     def traverse(fis_: FunctionInteractions) -> List[Node]:
@@ -139,6 +154,9 @@ def _structure(
                             and k1 not in node_deps[k2]
                             and k1 not in sub_set
                             and k2 not in sub_set
+                            # A node may be reached from several functions, next to different nodes:
+                            # the implicit dependencies must not close a cycle.
+                            and not reaches(k2, k1)
                         ):
                             deps[k] = Edge(n1.path, n2.path, ImplicitEdge)
                             node_deps[k2].add(k1)
